@@ -94,6 +94,11 @@ package packaging
 // (`../common`) in two manifests names two different directories. Every location of the list is resolved by its own
 // call of fetchAndCachePackage, made after the change to that package's directory, and the directories come back in
 // the order of the list.
+// What a location means depends on when it is resolved (the working directory of the moment for a local path, the
+// state of the remote for a git url): every call resolves the text it is given, none answers from an earlier call.
+//@ func fetchAndCachePackage
+//@   property C18
+//@   ensures every_call_resolves_its_location: called("net/url.Parse") && (result1 == nil ==> called("path/filepath.Abs") || called(fetchGit))
 //@ observe-args packaging.fetchAndCachePackage
 //@ func fetchAndCachePackages
 //@   property C18
